@@ -14,6 +14,9 @@ def text(s):
     return [ord(c) for c in s]
 
 
+NONDETERMINISTIC_OPS = {3}      # sign with OpenSSL's random nonce (see impl_run.py)
+
+
 def run(op, a):
     if op == 1:
         m = BitcoinMessage(a[0].decode('utf-8'))
